@@ -133,11 +133,9 @@ def search_unit(prop, unit, work, seed, only_fn=None):
     if exe is None:
         return None
     fails, evaluated, _ = run_driver(exe, "search", only_fn or "*", seed)
-    if fails:
-        f = fails[0]
-        return {"obligation": f.get("fn", "?") + "::" + f.get("clause", "oracle"), "fn": f.get("fn"), "input": f.get("input"), "observed": f.get("observed"),
-                "expected": f.get("expected"), "evaluated": evaluated, "build": info}
-    return None
+    # one witness per failing oracle clause (the caller skips those that are recorded findings)
+    return [{"obligation": f.get("fn", "?") + "::" + f.get("clause", "oracle"), "fn": f.get("fn"), "input": f.get("input"), "observed": f.get("observed"),
+             "expected": f.get("expected"), "evaluated": evaluated, "build": info} for f in fails] or None
 
 
 def sweep_unit(unit, work, seed):
